@@ -220,6 +220,23 @@ def run(tier, seed, replay=None):
         if name != 'PERIODIC' and tpass is not None:
             l1.append(('cubic', dict(boundary=name, bt=it % 6, t=tt, x=x, tang=tang, got=np.asarray(crv.controlpoints), knots=list(crv.knots(0, True)))))
 
+    # closed C2 cubic through closed data (first point repeated at the end, parameters given): Model/InterpMore.v cubic_periodic
+    for it in range(max(4, reps // 5)):
+        npt = rng.randint(5, 8)
+        dimp = rng.choice([2, 3])
+        xs_ = nrng.randint(-8, 9, size=(npt, dimp)) / 2.0
+        xs_ = np.vstack([xs_, xs_[:1]])
+        tt_, acc_ = [], 0.0
+        for _ in range(npt + 1):
+            tt_.append(acc_)
+            acc_ += rng.choice([0.5, 1.0, 1.5, 2.0])
+        try:
+            crv = cf.cubic_curve(xs_.copy(), cf.Boundary.PERIODIC, t=list(tt_))
+            count('cubic_curve', boundary='PERIODIC closed data')
+            l1.append(('cubicper', dict(t=tt_, x=xs_, got=O.snapshot(crv))))
+        except Exception as e:  # noqa
+            fail('cubic_curve', dict(boundary='PERIODIC', t=tt_, x=xs_.tolist()), 'closed data: raised %s' % type(e).__name__)
+
     # ---------------------------------------------------------------- surfaces / volumes: interpolate, lsq
     for it in range(reps):
         pd = rng.choice([2, 2, 3])
@@ -273,6 +290,10 @@ def run(tier, seed, replay=None):
                 fail(op.replace('interpolate', 'least_square_fit'), dict(args, u=ul), 'fitting samples of a spline of the space does not return it')
             if pd == 2:
                 l1.append(('interp2', dict(bases=bs, u=us, x=x, got=np.asarray(obj.controlpoints))))
+                l1.append(('lsq2', dict(bases=bs, u=ul, x=xl, got=np.asarray(fit.controlpoints))))
+            else:
+                l1.append(('interp3', dict(bases=bs, u=us, x=x, got=np.asarray(obj.controlpoints))))
+                l1.append(('lsq3', dict(bases=bs, u=ul, x=xl, got=np.asarray(fit.controlpoints))))
         except Exception as e:  # noqa
             fail(op, args, 'raised %s' % type(e).__name__)
 
@@ -317,6 +338,9 @@ def run(tier, seed, replay=None):
             vpar = [0.0]
             for a, b_ in zip(cen[:-1], cen[1:]):
                 vpar.append(vpar[-1] + float(np.linalg.norm(b_ - a)))
+        if compatible and nsec >= 3:
+            # the implementation first makes the sections identical (which also moves every direction to [0,1]); the model takes identical sections
+            l1.append(('loft', dict(pd=pd, secs=[O.snapshot(s_.clone().reparam()) for s_ in secs], dist=[float(v_) for v_ in vpar], got=O.snapshot(res))))
         bad = False
         for s, v in zip(secs, vpar):
             for _ in range(3):
@@ -529,6 +553,18 @@ def run(tier, seed, replay=None):
         elif kind == 'cubic':
             tg = d['tang'] if d['tang'] is not None else np.zeros((0, d['x'].shape[1]))
             lines.append('cubic_curve %s %d %s %s %s' % (C.qs(tol), d['bt'], C.qlist([C.fr(float(v)) for v in d['t']]), mtok(d['x']), mtok(tg)))
+        elif kind == 'loft':
+            lines.append('loft %s %d %d %s %s' % (C.qs(tol), int(d['pd'] == 2), len(d['secs']), ' '.join(O.obj_tokens(s_) for s_ in d['secs']), C.qlist([C.fr(v_) for v_ in d['dist']])))
+        elif kind == 'cubicper':
+            lines.append('cubic_periodic %s %s %s' % (C.qs(tol), C.qlist([C.fr(float(v)) for v in d['t']]), mtok(d['x'])))
+        elif kind in ('interp3', 'lsq3'):
+            lines.append('%s %s %s %s %s %s %s %s %s' % ('volume_interpolate' if kind == 'interp3' else 'volume_lsq', C.qs(tol), btok(d['bases'][0]), btok(d['bases'][1]), btok(d['bases'][2]),
+                                                        C.qlist([C.fr(float(v)) for v in d['u'][0]]), C.qlist([C.fr(float(v)) for v in d['u'][1]]), C.qlist([C.fr(float(v)) for v in d['u'][2]]),
+                                                        mtok(np.asarray(d['x']).reshape(-1, np.asarray(d['x']).shape[-1]))))
+        elif kind == 'lsq2':
+            lines.append('surface_lsq %s %s %s %s %s %s' % (C.qs(tol), btok(d['bases'][0]), btok(d['bases'][1]),
+                                                           C.qlist([C.fr(float(v)) for v in d['u'][0]]), C.qlist([C.fr(float(v)) for v in d['u'][1]]),
+                                                           mtok(np.asarray(d['x']).reshape(-1, np.asarray(d['x']).shape[-1]))))
         elif kind == 'interp2':
             lines.append('surface_interpolate %s %s %s %s %s %s' % (C.qs(tol), btok(d['bases'][0]), btok(d['bases'][1]),
                                                                    C.qlist([C.fr(float(v)) for v in d['u'][0]]), C.qlist([C.fr(float(v)) for v in d['u'][1]]),
@@ -544,6 +580,12 @@ def run(tier, seed, replay=None):
             if corr_bad.open() and why != 'Singular':
                 corr_bad += {'what': 'L1: model raises %s for %s, implementation succeeds' % (why, kind), 'op': kind}
             continue
+        if kind in ('loft', 'cubicper'):
+            mo = O.read_obj(tk)
+            dfr = O.snaps_differ(d['got'], mo, rel=1e-7)
+            if dfr:
+                corr_bad += {'what': 'L1: %s differs from the model: %s' % ('loft' if kind == 'loft' else 'closed cubic_curve(PERIODIC)', dfr), 'op': kind}
+            continue
         if kind == 'cubic':
             mk = [float(x) for x in tk.qlist()]
             if (len(mk) != len(d['knots']) or any(abs(a - b) > 1e-12 * max(1, abs(b)) for a, b in zip(mk, d['knots']))) and corr_bad.open():
@@ -551,6 +593,8 @@ def run(tier, seed, replay=None):
         n = tk.int()
         got = np.array([[float(x) for x in tk.qlist()] for _ in range(n)])
         want = d['got']
+        if kind in ('interp3', 'lsq3', 'lsq2'):
+            want = np.asarray(d['got']).reshape(-1, np.asarray(d['got']).shape[-1])
         if kind == 'interp2':
             want = want.transpose(1, 0, 2).reshape(-1, want.shape[-1]) if want.ndim == 3 else want
             got = got.reshape(want.shape) if got.size == want.size else got
